@@ -20,12 +20,20 @@ pub enum Op {
     RegSpy { sig: u8 },
     Store { flag: u8, v: bool },
     StoreUsize { flag: u8, v: usize },
-    Deliver { sig: u8 },
+    Deliver {
+        sig: u8,
+        /// deliver to a helper thread instead of the main thread (when the case has helpers)
+        #[serde(default)]
+        to_helper: bool,
+    },
 }
 
 #[derive(Clone, Debug, Serialize, Deserialize)]
 pub struct C15Case {
     pub ops: Vec<Op>,
+    /// idle helper threads alive during the history (0-2) plus a watcher
+    #[serde(default)]
+    pub helpers: u8,
 }
 
 pub fn strategy() -> BoxedStrategy<C15Case> {
@@ -36,23 +44,24 @@ pub fn strategy() -> BoxedStrategy<C15Case> {
         2 => (0u8..7).prop_map(|sig| Op::RegSpy { sig }),
         3 => (0u8..3, any::<bool>()).prop_map(|(flag, v)| Op::Store { flag, v }),
         1 => (0u8..2, any::<usize>()).prop_map(|(flag, v)| Op::StoreUsize { flag, v }),
-        6 => (0u8..7).prop_map(|sig| Op::Deliver { sig }),
+        6 => (0u8..7, prop::bool::weighted(0.35)).prop_map(|(sig, to_helper)| Op::Deliver { sig, to_helper }),
     ];
     // bias towards few signals so that actions pile up on one signal
-    (vec(op, 1..21), 1u8..4)
-        .prop_map(|(mut ops, nsig)| {
+    (vec(op, 1..21), 1u8..4, prop_oneof![2 => Just(0u8), 1 => Just(1u8), 1 => Just(2u8)])
+        .prop_map(|(mut ops, nsig, helpers)| {
             for o in ops.iter_mut() {
                 match o {
-                    Op::RegFlag { sig, .. } | Op::RegUsize { sig, .. } | Op::RegShutdown { sig, .. } | Op::RegSpy { sig } | Op::Deliver { sig } => *sig %= nsig,
+                    Op::RegFlag { sig, .. } | Op::RegUsize { sig, .. } | Op::RegShutdown { sig, .. } | Op::RegSpy { sig } | Op::Deliver { sig, .. } => *sig %= nsig,
                     _ => {}
                 }
             }
-            C15Case { ops }
+            C15Case { ops, helpers }
         })
         .boxed()
 }
 
 static OUT_FD: AtomicI32 = AtomicI32::new(-1);
+static HELPER_TICKS: [AtomicUsize; 4] = [const { AtomicUsize::new(0) }; 4];
 
 extern "C" fn at_exit_marker() {
     let fd = OUT_FD.load(Ordering::SeqCst);
@@ -66,6 +75,47 @@ fn child(case: &C15Case, fd: i32) {
     crate::vsched::install();
     OUT_FD.store(fd, Ordering::SeqCst);
     unsafe { libc::atexit(at_exit_marker) };
+    // helper threads: alive for the whole history, each in a short-sleep tick loop; a watcher notices
+    // when a single thread (rather than the process) has been terminated
+    let main_tid = unsafe { libc::syscall(libc::SYS_gettid) } as i32;
+    let mut helper_ids: Vec<(libc::pthread_t, i32, usize)> = Vec::new();
+    if case.helpers > 0 {
+        let (tx, rx) = std::sync::mpsc::channel::<(libc::pthread_t, i32, usize)>();
+        for hi in 0..case.helpers as usize {
+            let tx = tx.clone();
+            std::thread::spawn(move || {
+                let me = (unsafe { libc::pthread_self() }, unsafe { libc::syscall(libc::SYS_gettid) } as i32, hi);
+                tx.send(me).unwrap();
+                // tick loop: a signal directed at this thread is handled at the latest when the
+                // current short sleep returns, i.e. before two further ticks have been counted
+                loop {
+                    std::thread::sleep(std::time::Duration::from_micros(150));
+                    HELPER_TICKS[hi % 4].fetch_add(1, Ordering::SeqCst);
+                }
+            });
+        }
+        for _ in 0..case.helpers {
+            helper_ids.push(rx.recv().unwrap());
+        }
+        std::thread::spawn(move || {
+            unsafe {
+                let mut all: libc::sigset_t = std::mem::zeroed();
+                libc::sigfillset(&mut all);
+                libc::pthread_sigmask(libc::SIG_BLOCK, &all, std::ptr::null_mut());
+            }
+            let path = format!("/proc/self/task/{}", main_tid);
+            loop {
+                if !std::path::Path::new(&path).exists() {
+                    let m = b"{\"k\":\"main-thread-gone\"}\n";
+                    unsafe {
+                        libc::write(OUT_FD.load(Ordering::SeqCst), m.as_ptr() as *const _, m.len());
+                        libc::_exit(78);
+                    }
+                }
+                std::thread::sleep(std::time::Duration::from_micros(500));
+            }
+        });
+    }
     let bools: Vec<Arc<AtomicBool>> = (0..3).map(|_| Arc::new(AtomicBool::new(false))).collect();
     let us: Vec<Arc<AtomicUsize>> = (0..2).map(|_| Arc::new(AtomicUsize::new(0))).collect();
     let mut spy_id = 0;
@@ -106,9 +156,32 @@ fn child(case: &C15Case, fd: i32) {
             }
             Op::Store { flag, v } => bools[*flag as usize % 3].store(*v, Ordering::SeqCst),
             Op::StoreUsize { flag, v } => us[*flag as usize % 2].store(*v, Ordering::SeqCst),
-            Op::Deliver { sig } => {
+            Op::Deliver { sig, to_helper } => {
                 emit(fd, &json!({"k": "delivering", "step": i}));
-                unsafe { libc::raise(SIGSET[*sig as usize % 7]) };
+                if *to_helper && !helper_ids.is_empty() {
+                    let (pt, tid, hi) = helper_ids[0];
+                    let before = HELPER_TICKS[hi % 4].load(Ordering::SeqCst);
+                    unsafe { libc::pthread_kill(pt, SIGSET[*sig as usize % 7]) };
+                    let start = std::time::Instant::now();
+                    let path = format!("/proc/self/task/{}", tid);
+                    loop {
+                        if HELPER_TICKS[hi % 4].load(Ordering::SeqCst) >= before + 2 {
+                            break;
+                        }
+                        if !std::path::Path::new(&path).exists() {
+                            emit(fd, &json!({"k": "thread-gone", "step": i}));
+                            helper_ids.remove(0);
+                            break;
+                        }
+                        if start.elapsed().as_millis() > 3000 {
+                            emit(fd, &json!({"k": "infra", "what": "helper did not wake"}));
+                            break;
+                        }
+                        std::thread::sleep(std::time::Duration::from_micros(200));
+                    }
+                } else {
+                    unsafe { libc::raise(SIGSET[*sig as usize % 7]) };
+                }
             }
         }
         let b: Vec<bool> = bools.iter().map(|x| x.load(Ordering::SeqCst)).collect();
@@ -177,7 +250,7 @@ pub fn run_case(case: &C15Case) -> CaseReport {
                 }
             }
             Op::StoreUsize { flag, v } => us[*flag as usize % 2] = *v,
-            Op::Deliver { sig } => {
+            Op::Deliver { sig, .. } => {
                 let list = actions[*sig as usize % 7].clone();
                 if list.is_empty() {
                     // never taken over: the harness would die of the default action - the child
@@ -220,6 +293,16 @@ pub fn run_case(case: &C15Case) -> CaseReport {
         rep.class("shutdown-delivered>=2");
     }
     // ---- compare
+    if recs.iter().any(|r| r["k"] == "infra") {
+        rep.inconclusive = Some("helper thread did not wake".into());
+        return rep;
+    }
+    if recs.iter().any(|r| r["k"] == "main-thread-gone" || r["k"] == "thread-gone") {
+        rep.viol("C15/thread-exit-only", "an armed conditional shutdown ended only the thread that handled the signal; the process lived on".into());
+    }
+    if case.helpers > 0 {
+        rep.class("multi-threaded");
+    }
     if recs.iter().any(|r| r["k"] == "atexit") {
         rep.viol("C15/atexit-ran", "exit-time hooks ran: the shutdown did not terminate immediately".into());
     }
@@ -284,7 +367,7 @@ fn worker(def: &PropDef, args: &WorkerArgs) -> WorkerReport {
                     taken[*sig as usize % 7] = true;
                     true
                 }
-                Op::Deliver { sig } => taken[*sig as usize % 7],
+                Op::Deliver { sig, .. } => taken[*sig as usize % 7],
                 _ => true,
             });
             if c.ops.is_empty() {
